@@ -3224,6 +3224,7 @@ class quantized_hswish(quantized_bits):  # pylint: disable=invalid-name
       use_variables=False,
       relu_shift: int = 3,
       relu_upper_bound: int = 6,
+      use_ste=True,
   ):
     super().__init__(
         bits=bits,
@@ -3235,6 +3236,7 @@ class quantized_hswish(quantized_bits):  # pylint: disable=invalid-name
         scale_axis=scale_axis,
         qnoise_factor=qnoise_factor,
         var_name=var_name,
+        use_ste=use_ste,
         use_variables=use_variables,
     )
 
@@ -3318,7 +3320,7 @@ class quantized_hswish(quantized_bits):  # pylint: disable=invalid-name
 
     base_config = super(quantized_hswish, self).get_config()
     # quantized_hswish.__init__ does not take these quantized_bits options.
-    for key in ("keep_negative", "use_ste", "elements_per_scale", "min_po2_exponent",
+    for key in ("keep_negative", "elements_per_scale", "min_po2_exponent",
                 "max_po2_exponent", "post_training_scale"):
       base_config.pop(key, None)
 
